@@ -31,6 +31,7 @@ def run(repo, chk):
     rule_c_d(repo, chk)
     rule_cmds(repo, chk)
     rule_parse(repo, chk)
+    rule_carry_lifetime(repo, chk)
 
 
 def rule_a(repo, chk):
@@ -119,6 +120,21 @@ def rule_b(repo, chk):
                discr=f'{"server" if server else "client"}-lines-fired')
 
 
+def rule_carry_lifetime(repo, chk):
+    """The client-mode carry is per connection: it is emptied when the connection ends."""
+    chk.rule('C18.g', 'the client-mode carry (Line.buffer) does not outlive its connection: a handler of the client-side `disconnected` event empties it on every path')
+    cls = repo.cls(LINE, 'Line')
+    hs = [m for m in cls.methods.values() if m.handler is not None and 'disconnected' in m.handler.names and not getattr(m, 'absorbed', False)]
+    chk.ob('g', cls.ref if hasattr(cls, 'ref') else LINE, 'Line handles the end of the client connection', bool(hs), f'{LINE}:{cls.node.lineno}', discr='handles-disconnected')
+    for m in hs:
+        chk.touch(m)
+        g = m.cfg()
+        clr = [n for n in g.nodes if n.kind == 'stmt' and any(r == 'self' and a == 'buffer' and isinstance(v, ast.Constant) and v.value == b'' for r, a, v in pat.attr_store(n.ast))]
+        p = Q.escapes(g, [g.entry], lambda n: n in clr, exc=())
+        chk.ob('g', m.ref, 'the carry is emptied when the connection ends, on every path', p is None and bool(clr), loc(m, m.node),
+               path=pat.path_lines(p) if p else None, discr='carry-reset-on-disconnect')
+
+
 def rule_c_d(repo, chk):
     cls = repo.cls(IRC_MESSAGE, 'Message')
     chkf = need(cls.methods.get('_check_args'), 'C18.c: Message._check_args missing')
@@ -158,6 +174,47 @@ def rule_c_d(repo, chk):
         for fld in fields:
             chk.ob('c', chkf.ref, f'{name} is rejected in `{fld}`', fld in covered[name], loc(chkf, chkf.node), detail=f'{name} checked in {sorted(covered[name])}',
                    discr=f'rejects:{name}:{fld}')
+    # fields the line format cannot carry are refused: a space in command / prefix, an empty or ':'-leading middle argument
+    gk = chkf.cfg()
+    rejecting = [n for n in gk.nodes if n.kind == 'test' and any(e.kind == 'T' and (e.dst.kind == 'raise' or (e.dst.kind == 'stmt' and isinstance(e.dst.ast, ast.Raise)) or
+                                                                                  Q.escapes(gk, [e.dst], lambda x: False, exits=('exit',)) is None) for e in n.succ)]
+    sp_cov = set()
+    mid_empty = mid_colon = False
+    for n in rejecting:
+        for w in ast.walk(n.ast):
+            if isinstance(w, ast.Compare) and len(w.ops) == 1 and isinstance(w.ops[0], ast.In) and isinstance(w.left, ast.Constant) and w.left.value == ' ':
+                sp_cov |= _fields_of(chkf, w.comparators[0])
+                for gen in [x for x in ast.walk(n.ast) if isinstance(x, ast.comprehension)]:
+                    if src(gen.target) == src(w.comparators[0]):
+                        sp_cov |= _fields_of(chkf, gen.iter)
+            if isinstance(w, (ast.GeneratorExp, ast.ListComp)) and len(w.generators) == 1 and src(w.generators[0].iter).replace(' ', '') == 'self.args[:-1]':
+                tv = src(w.generators[0].target)
+                for x in ast.walk(w.elt):
+                    if isinstance(x, ast.UnaryOp) and isinstance(x.op, ast.Not) and src(x.operand) == tv:
+                        mid_empty = True
+                    if isinstance(x, ast.Compare) and src(x).replace(' ', '').replace('"', "'") in (f"{tv}==''", f"len({tv})==0"):
+                        mid_empty = True
+                    if isinstance(x, ast.Call) and src(x).replace('"', "'") == f"{tv}.startswith(':')":
+                        mid_colon = True
+                    if isinstance(x, ast.Compare) and src(x).replace(' ', '').replace('"', "'") in (f"{tv}[:1]==':'", f"{tv}[0]==':'"):
+                        mid_colon = True
+    # loop form: `for arg in self.args[:-1]: if not arg or arg.startswith(':'): raise`
+    for n in rejecting:
+        lp = [a for k, a in n.ctx if k == 'loop' and isinstance(a, ast.For) and src(a.iter).replace(' ', '') == 'self.args[:-1]']
+        if lp:
+            tv = src(lp[0].target)
+            if (isinstance(n.ast, ast.Name) and False) or src(n.ast).replace('"', "'") == f"{tv}.startswith(':')":
+                mid_colon = True
+    for n in gk.nodes:
+        if n.kind == 'test':
+            lp = [a for k, a in n.ctx if k == 'loop' and isinstance(a, ast.For) and src(a.iter).replace(' ', '') == 'self.args[:-1]']
+            if lp and src(n.ast) == src(lp[0].target) and any(e.kind == 'F' and (e.dst.kind == 'raise' or (e.dst.kind == 'stmt' and isinstance(e.dst.ast, ast.Raise))) for e in n.succ):
+                mid_empty = True
+    for fld in ('self.command', 'self.prefix'):
+        chk.ob('c', chkf.ref, f'a space in `{fld}` is rejected (it would shift the fields of the line)', fld in sp_cov, loc(chkf, chkf.node), discr=f'rejects:space:{fld}')
+    chk.ob('c', chkf.ref, 'an empty middle argument is rejected (nothing of it would be on the wire)', mid_empty, loc(chkf, chkf.node), discr='rejects:empty-middle')
+    chk.ob('c', chkf.ref, 'a middle argument starting with ":" is rejected (it would be taken for the trailing argument)', mid_colon, loc(chkf, chkf.node),
+           discr='rejects:colon-middle')
     # the check runs at construction (after the fields are set) and at serialisation (before formatting)
     gi = init.cfg()
     ck = [n for n in gi.nodes if n.kind == 'stmt' and any(r == 'self' for r, _c in pat.method_calls(n.ast, '_check_args'))]
@@ -196,6 +253,12 @@ def rule_c_d(repo, chk):
         okm = bool(marks) and bool(edges) and all(e.dst in marks or Q.escapes(gs, [e.dst], lambda n: n in marks, avoid_edge=colon_T) is None for e in edges)
         chk.ob('d', st.ref, f'a last argument that {"contains a space" if label == "space" else "is empty"} is marked as trailing (":" in front) on every path, unless it '
                             'carries the marker already', okm, loc(st, (marks[0].ast if marks else st.node)), discr=f'trailing-marker:{label}')
+    # … and a last argument that itself starts with ':' needs the marker as well (else its first character is eaten as the marker)
+    colon_edges = [e for n in gs.nodes if n.kind == 'test' for e in n.succ if colon_T(e)]
+    if colon_edges:
+        okc = bool(marks) and all(e.dst in marks or Q.escapes(gs, [e.dst], lambda n: n in marks) is None for e in colon_edges)
+        chk.ob('d', st.ref, 'a last argument that starts with ":" is marked as trailing like any other (the serialiser does not take the first character of the text '
+                            'for a marker the caller wrote)', okc, loc(st, colon_edges[0].src.ast), discr='trailing-marker:colon')
     mk = [n for n in walk_no_defs(init.node) if isinstance(n, ast.Assign) and any(src(t) == 'self.args' for t in n.targets)]
     texty = False
     for n in mk:
@@ -297,6 +360,11 @@ def rule_parse(repo, chk):
     stores = [w for w in walk_no_defs(f.node) if isinstance(w, ast.Name) and isinstance(w.ctx, ast.Store) and w.id == tv]
     app = app and len([w for w in stores]) <= (2 if form == 'split' else 1)
     chk.ob('f', f.ref, 'the trailing argument is everything after the first " :" and becomes the last argument as it is', ok and app, loc(f, f.node), discr='trailing-verbatim')
+    # the serialiser joins with ' ' and only forbids ' ' inside middle arguments: the parser must split at ' ' and at nothing else
+    sp_calls = [c for c in calls_in(f.node) if isinstance(c.func, ast.Attribute) and c.func.attr in ('split', 'rsplit', 'partition', 'rpartition')]
+    bare = [c for c in sp_calls if not c.args or not (isinstance(c.args[0], ast.Constant) and isinstance(c.args[0].value, str) and c.args[0].value in (' ', ' :'))]
+    chk.ob('f', f.ref, 'parameters are separated at SPACE only (no whitespace-class split: tab, NBSP, U+001F … are data)', bool(sp_calls) and not bare,
+           loc(f, (bare or [f.node])[0]), detail='; '.join(src(c) for c in bare), discr='space-only-split')
     m = repo.func(IRC_MESSAGE, 'Message.from_string')
     chk.touch(m)
     # the prefix handed to Message is text: parsemsg returns the *parts* (nick, user, host); they are destructured and joined again, never passed on as they are
